@@ -312,3 +312,173 @@ Proof.
   pose proof (step_epoch_last _ _ _ _ E) as Hs. destruct o; try (destruct Hs as [-> ->]; exact H1); [congruence|].
   destruct Hs as [-> ->]. rewrite aget_aset. destruct (u =? sender); [reflexivity|exact H1].
 Qed.
+
+(* ---- F. a successful claim pays exactly what the rewards query reports (when at most CLAIM_CAP epochs are unclaimed) -------- *)
+Lemma reward_nonneg em uw g r : 0 <= em -> 0 <= uw -> 0 < g -> reward_of em uw g = Ok r -> 0 <= r.
+Proof.
+  unfold reward_of, dec_from_ratio. intros He Hu Hg H. destruct (g =? 0) eqn:E; [apply Z.eqb_eq in E; lia|].
+  destruct (uw * DEC / g <? P256); [|discriminate]. cbn [bind] in H. apply bind_ok in H as [u0 [_ H]].
+  destruct (em * (uw * DEC / g) / DEC <? P128); [|discriminate]. inversion H; subst. pose proof DEC_pos.
+  apply Z.div_pos; [|lia]. apply Z.mul_nonneg_nonneg; [lia|]. apply Z.div_pos; [nia|lia].
+Qed.
+
+Lemma emission_nonneg f emap e em emitted : epoch_emission f emap e = Ok (em, emitted) -> 0 <= em.
+Proof.
+  unfold epoch_emission. intros H. apply bind_ok in H as [span [Es H]]. apply bind_ok in H as [q [Eq H]]. inversion H; subst.
+  unfold psub in Es. destruct (e <=? _) eqn:E1; [|discriminate]. apply Z.leb_le in E1. inversion Es; subst.
+  unfold cdiv in Eq. destruct (_ =? 0) eqn:E2; [discriminate|]. apply Z.eqb_neq in E2. inversion Eq; subst.
+  apply Z.div_pos; [apply ssub_nonneg|lia].
+Qed.
+
+Lemma weight_lookup_nonneg h e lu lw uw lu1 lw1 :
+  Forall (fun x => 0 <= snd x) h -> 0 <= lw -> weight_lookup h e lu lw = Some (uw, lu1, lw1) -> 0 <= uw /\ 0 <= lw1.
+Proof.
+  unfold weight_lookup. intros Hh Hlw H. destruct (aget e h) as [w|] eqn:Eg.
+  - inversion H; subst. rewrite Forall_forall in Hh. specialize (Hh _ (aget_in _ _ _ Eg)). cbn in Hh. lia.
+  - destruct (negb (lu =? 0) && (lu <=? e)); [|discriminate]. inversion H; subst. lia.
+Qed.
+
+Lemma aget0_pos e snap : Forall (fun x => 0 <= snd x) snap -> aget0 e snap <> 0 -> 0 < aget0 e snap.
+Proof. intros H Hn. pose proof (aget0_nonneg e snap H). lia. Qed.
+
+Lemma same_frame_emission f g emap e : same_frame f g -> epoch_emission g emap e = epoch_emission f emap e.
+Proof.
+  intros [_ [_ [_ [_ [Ha [_ [He Hh]]]]]]]. unfold epoch_emission, get_flow_asset_amount_at_epoch, get_flow_current_end_epoch.
+  rewrite Hh, Ha, He. reflexivity.
+Qed.
+Lemma same_frame_start f g : same_frame f g -> f_start g = f_start f.
+Proof. intros [_ [_ [_ [_ [_ [Hs _]]]]]]. exact Hs. Qed.
+Lemma same_frame_sym f g : same_frame f g -> same_frame g f.
+Proof. unfold same_frame. intuition congruence. Qed.
+
+Lemma claim_vs_rewards : forall fuel e cur count ea ee h snap s s' f0 total,
+  claim_epochs v_fixed fuel e cur count ea ee h snap s = Ok s' ->
+  count + (cur - e + 1) <= CLAIM_CAP \/ cur < e ->
+  same_frame f0 (l_flow s) -> 0 <= f_claimed f0 -> total = f_claimed (l_flow s) - f_claimed f0 -> 0 <= total ->
+  Forall (fun x => 0 <= snd x) h -> 0 <= l_lw s -> Forall (fun x => 0 <= snd x) snap ->
+  rewards_epochs v_fixed fuel e cur f0 ea ee h snap (f_emitted (l_flow s)) (l_lu s) (l_lw s) total = Ok (f_claimed (l_flow s') - f_claimed f0).
+Proof.
+  induction fuel as [|fuel IH]; intros e cur count ea ee h snap s s' f0 total H Hcap Hfr Hc0 Ht Ht0 Hh Hlw Hsn.
+  - cbn in H. inversion H; subst. cbn. reflexivity.
+  - cbn [claim_epochs] in H. cbn [rewards_epochs].
+    destruct (cur <? e) eqn:Ece; [inversion H; subst; reflexivity|]. apply Z.ltb_ge in Ece.
+    destruct Hcap as [Hcap|Hcap]; [|lia].
+    destruct (CLAIM_CAP <? count + 1) eqn:Ecap; [apply Z.ltb_lt in Ecap; lia|].
+    rewrite (same_frame_start _ _ Hfr) in H.
+    destruct (e <? f_start f0) eqn:Est.
+    { cbn [v_skip_scan v_fixed] in *. destruct (aget e h) as [w0|] eqn:Eg.
+      - pose proof (IH _ _ _ _ _ _ _ _ _ f0 total H) as Hrec. cbn in Hrec. apply Hrec; try assumption; try lia.
+        rewrite Forall_forall in Hh. specialize (Hh _ (aget_in _ _ _ Eg)). exact Hh.
+      - pose proof (IH _ _ _ _ _ _ _ _ _ f0 total H) as Hrec. apply Hrec; try assumption; try lia. }
+    destruct (ee <=? e); [inversion H; subst; reflexivity|].
+    rewrite (same_frame_emission _ _ _ _ Hfr) in H.
+    apply bind_ok in H as [[emission emitted] [Eem H]]. rewrite Eem. cbn [bind].
+    pose proof (emission_nonneg _ _ _ _ _ Eem) as Hem.
+    apply bind_ok in H as [f1 [Ef1 H]].
+    (* the emitted map evolves identically *)
+    assert (Hf1 : same_frame (l_flow s) f1 /\ f_claimed f1 = f_claimed (l_flow s) /\
+                  (match aget e (f_emitted (l_flow s)) with
+                   | None => do v <- cadd P128 emission emitted; Ok (f_emitted (l_flow s) ++ [(e, v)])
+                   | Some _ => Ok (f_emitted (l_flow s)) end) = Ok (f_emitted f1)).
+    { destruct (aget e (f_emitted (l_flow s))).
+      - inversion Ef1; subst. split; [apply same_frame_refl|split; reflexivity].
+      - apply bind_ok in Ef1 as [vv [Evv Ef1]]. inversion Ef1; subst. rewrite Evv. cbn. split; [apply same_frame_set_emitted|split; reflexivity]. }
+    destruct Hf1 as [Hfr1 [Hcl1 Hem1]]. rewrite Hem1. cbn [bind].
+    assert (Hfr01 : same_frame f0 f1) by (eapply same_frame_trans; eauto).
+    destruct (weight_lookup h e (l_lu s) (l_lw s)) as [[[uw lu1] lw1]|] eqn:Elk.
+    + destruct (weight_lookup_nonneg _ _ _ _ _ _ _ Hh Hlw Elk) as [Huw Hlw1].
+      destruct (aget0 e snap =? 0) eqn:Eg.
+      { pose proof (IH _ _ _ _ _ _ _ _ _ f0 total H) as Hrec. cbn in Hrec. apply Hrec; try assumption; try lia. }
+      apply Z.eqb_neq in Eg. pose proof (aget0_pos _ _ Hsn Eg) as Hg.
+      apply bind_ok in H as [r [Er H]]. rewrite Er. cbn [bind].
+      pose proof (reward_nonneg _ _ _ _ Hem Huw Hg Er) as Hr.
+      apply bind_ok in H as [tot [Etot H]]. apply bind_ok in H as [u [Egd H]].
+      apply ensure_ok in Egd. apply andb_true_iff in Egd as [Eg1 Eg2]. apply Z.leb_le in Eg1, Eg2.
+      unfold cadd in Etot. destruct (fits P128 (r + f_claimed f1)) eqn:Efit; [|discriminate]. inversion Etot; subst tot.
+      unfold fits in Efit. apply andb_true_iff in Efit as [Ef0 EfP]. apply Z.leb_le in Ef0. apply Z.ltb_lt in EfP.
+      (* the query's guard and accumulation *)
+      assert (Hq1 : cadd P128 r (f_claimed f0) = Ok (r + f_claimed f0)).
+      { unfold cadd, fits. replace (0 <=? r + f_claimed f0) with true by (symmetry; apply Z.leb_le; lia).
+        replace (r + f_claimed f0 <? P128) with true by (symmetry; apply Z.ltb_lt; lia). reflexivity. }
+      rewrite Hq1. cbn [bind].
+      assert (Hq2 : ensure ((r <=? emission) && (r + f_claimed f0 <=? ea)) E_OTHER = Ok tt).
+      { unfold ensure. replace (r <=? emission) with true by (symmetry; apply Z.leb_le; lia).
+        replace (r + f_claimed f0 <=? ea) with true by (symmetry; apply Z.leb_le; lia). reflexivity. }
+      rewrite Hq2. cbn [bind].
+      assert (Hq3 : padd P128 total r = Ok (total + r)).
+      { unfold padd, fits. replace (0 <=? total + r) with true by (symmetry; apply Z.leb_le; lia).
+        replace (total + r <? P128) with true by (symmetry; apply Z.ltb_lt; lia). reflexivity. }
+      rewrite Hq3. cbn [bind].
+      destruct (r =? 0) eqn:Er0.
+      * apply Z.eqb_eq in Er0. subst r. replace (total + 0) with total by lia.
+        pose proof (IH _ _ _ _ _ _ _ _ _ f0 total H) as Hrec. cbn in Hrec. apply Hrec; try assumption; try lia.
+      * pose proof (IH _ _ _ _ _ _ _ _ _ f0 (total + r) H) as Hrec. cbn in Hrec. apply Hrec; try assumption; try lia; try (eapply same_frame_trans; [exact Hfr01|apply same_frame_set_claimed]).
+    + pose proof (IH _ _ _ _ _ _ _ _ _ f0 total H) as Hrec. cbn in Hrec. apply Hrec; try assumption; try lia.
+Qed.
+
+(* what a claim paid, flow by flow in storage order: (asset, claimed' - claimed), zero entries dropped *)
+Fixpoint payouts (fl fl' : list flow) : list (Z * Z) :=
+  match fl, fl' with
+  | f :: r, g :: r' => (if 0 <? f_claimed g - f_claimed f then [(f_asset f, f_claimed g - f_claimed f)] else []) ++ payouts r r'
+  | _, _ => []
+  end.
+
+Lemma earliest_nonneg h : Forall (fun x => 0 <= snd x) h -> 0 <= snd (earliest h).
+Proof. destruct 1 as [|x r H _]; cbn; [lia|exact H]. Qed.
+
+Lemma claim_flows_vs_rewards : forall fl cur last h snap user lw fl' ms lw',
+  claim_flows v_fixed fl cur last h snap user lw = Ok (fl', ms, lw') ->
+  (forall f first, In f fl -> first_claimable last f (fst (earliest h)) = Ok first -> cur - first + 1 <= CLAIM_CAP) ->
+  Forall (fun f => 0 <= f_claimed f) fl -> Forall (fun x => 0 <= snd x) h -> Forall (fun x => 0 <= snd x) snap ->
+  rewards_flows v_fixed fl cur last h snap = Ok (payouts fl fl').
+Proof.
+  induction fl as [|f r IH]; intros cur last h snap user lw fl' ms lw' H Hcap Hcl Hh Hsn.
+  - cbn in H. inversion H; subst. reflexivity.
+  - cbn [claim_flows] in H. cbn [rewards_flows]. apply Forall_cons_iff in Hcl as [Hcf Hcl].
+    assert (Hcap' : forall f0 first, In f0 r -> first_claimable last f0 (fst (earliest h)) = Ok first -> cur - first + 1 <= CLAIM_CAP)
+      by (intros; eapply Hcap; [right; eassumption|eassumption]).
+    assert (Hskip : forall x0, claim_flows v_fixed r cur last h snap user lw = Ok x0 ->
+                      (let '(r', ms0, lw0) := x0 in Ok (f :: r', ms0, lw0)) = Ok (fl', ms, lw') ->
+                      rewards_flows v_fixed r cur last h snap = Ok (payouts (f :: r) fl')).
+    { intros [[r' ms0] lw0] E1 E2. inversion E2; subst. cbn [payouts]. rewrite Z.sub_diag. cbn. eapply IH; eauto. }
+    destruct (cur <? f_start f).
+    { apply bind_ok in H as [x0 [E1 H]]. eapply Hskip; eauto. }
+    destruct (flow_latest f) as [exp_amt exp_end] eqn:Elat.
+    destruct ((exp_end <? cur) && (f_claimed f =? exp_amt)).
+    { apply bind_ok in H as [x0 [E1 H]]. eapply Hskip; eauto. }
+    destruct (earliest h) as [lu0 lw0] eqn:Eea.
+    apply bind_ok in H as [first [Efirst H]]. rewrite Efirst. cbn [bind].
+    apply bind_ok in H as [ls [Es H]]. apply bind_ok in H as [[[r' ms0] lw1] [Er H]]. inversion H; subst; clear H.
+    pose proof (claim_vs_rewards _ _ _ _ _ _ _ _ _ _ f 0 Es) as Hq. cbn [l_flow l_lu l_lw] in Hq.
+    rewrite Hq; cbn [bind].
+    + rewrite <- Eea in Hcap'. rewrite (IH _ _ _ _ _ _ _ _ _ Er Hcap' Hcl Hh Hsn). cbn [bind payouts].
+      destruct (0 <? f_claimed (l_flow ls) - f_claimed f); reflexivity.
+    + left. specialize (Hcap f first (or_introl eq_refl)). cbn [fst] in Hcap. specialize (Hcap Efirst). lia.
+    + apply same_frame_refl.
+    + exact Hcf.
+    + lia.
+    + lia.
+    + exact Hh.
+    + pose proof (earliest_nonneg h Hh) as He. rewrite Eea in He. exact He.
+    + exact Hsn.
+Qed.
+
+Theorem claim_eq_query c st u st' :
+  WInv st -> Forall (fun f => 0 <= f_claimed f) (s_flows st) ->
+  (forall f first, In f (s_flows st) ->
+     first_claimable (aget u (s_last st)) f (fst (earliest (s_awh st u))) = Ok first -> s_epoch st - first + 1 <= CLAIM_CAP) ->
+  step v_fixed c st (Claim u) = Ok st' ->
+  get_rewards v_fixed st u = Ok (payouts (s_flows st) (s_flows st')).
+Proof.
+  intros W Hcl Hcap Hstep. cbn [step] in Hstep. apply call_ok in Hstep as [st1 [ms [Eh [_ Est]]]].
+  unfold claim in Eh. destruct (aget (s_epoch st) (s_snap st)); [|discriminate].
+  apply bind_ok in Eh as [u0 [Elast Eh]]. apply ensure_ok in Elast.
+  apply bind_ok in Eh as [[[fl ms0] lw] [Ecf Eh]]. apply bind_ok in Eh as [nxt [_ Eh]]. inversion Eh; subst st1 ms; clear Eh.
+  rewrite Est. cbn [s_flows with_bal].
+  pose proof (claim_flows_vs_rewards _ _ _ _ _ _ _ _ _ _ Ecf Hcap Hcl (w_hist_nn _ W u)) as Hq.
+  assert (Hsn : Forall (fun x => 0 <= snd x) (s_snap st)).
+  { eapply Forall_impl; [|apply (w_snap _ W)]. cbn. intros; tauto. }
+  specialize (Hq Hsn). unfold get_rewards.
+  destruct (aget u (s_last st)) as [l|]; [|exact Hq].
+  apply negb_true_iff in Elast. rewrite Elast. exact Hq.
+Qed.
